@@ -66,8 +66,10 @@ def GSide (tys : List Ty) : GQuery → List Row → Prop
     C01.KeysTotal src t ∧
     (∀ aggs r0, typecheckGroup tys src g = some aggs → denoteNested src t = some r0 →
       FiniteArgs aggs (specFilter g.whr r0)) ∧
-    (∀ grouped c, blockCore g.post grouped = some c → C01.KeysOk g.post.order c)
-  | .sel src b, t => GSide tys src t ∧ ∀ mid c, blockCore b mid = some c → C01.KeysOk b.order c
+    (∀ aggs grouped c, typecheckGroup tys src g = some aggs → groupCore aggs src g t = .ok grouped →
+      blockCore g.post grouped = some c → C01.KeysOk g.post.order c)
+  | .sel src b, t => GSide tys src t ∧
+      ∀ mid c, denoteGNested tys src t = .ok mid → blockCore b mid = some c → C01.KeysOk b.order c
 
 /-- FROM → WHERE → GroupBy -/
 theorem groupCore_sound (aggs : List PAgg) (src : Query) (g : GroupBlock) (t grouped : List Row)
@@ -103,15 +105,15 @@ theorem denoteGNested_sound (tys : List Ty) (q : GQuery) (t out : List Row) (hs 
       obtain ⟨cols, hcols, haggs⟩ := typecheckGroup_some htc
       obtain ⟨r0, hq, he⟩ := groupCore_sound aggs src g t grouped hs.1 (fun r0 hr0 => hs.2.1 aggs r0 htc hr0) hg
       exact ⟨cols, aggs, r0, grouped, hcols, haggs, hq, he,
-        C01.block_eager_sound g.post grouped c out (Res.ofOption_ok hc) (hs.2.2 grouped c (Res.ofOption_ok hc))
-          (Res.ofOption_ok h)⟩
+        C01.block_eager_sound g.post grouped c out (Res.ofOption_ok hc)
+          (hs.2.2 aggs grouped c htc hg (Res.ofOption_ok hc)) (Res.ofOption_ok h)⟩
   | sel src b ih =>
     simp only [GQuery.hasLimit0, Bool.or_eq_false_iff] at hl
     simp only [denoteGNested, hl.1, Bool.false_eq_true, if_false] at h
     obtain ⟨mid, hm, h⟩ := Res.bind_ok h
     obtain ⟨c, hc, h⟩ := Res.bind_ok h
     exact ⟨mid, ih mid hs.1 hl.2 hm,
-      C01.block_eager_sound b mid c out (Res.ofOption_ok hc) (hs.2 mid c (Res.ofOption_ok hc)) (Res.ofOption_ok h)⟩
+      C01.block_eager_sound b mid c out (Res.ofOption_ok hc) (hs.2 mid c hm (Res.ofOption_ok hc)) (Res.ofOption_ok h)⟩
 
 theorem sink_sound (mode : Mode) (b : Block) (inp c out : List Row) (hc : blockCore b inp = some c)
     (hk : C01.KeysOk b.order c) (h : sink mode b c = .ok out) : BlockResult b inp out := by
@@ -138,7 +140,7 @@ theorem C03_denote_sound (mode : Mode) (tys : List Ty) (q : GQuery) (t out : Lis
       obtain ⟨cols, hcols, haggs⟩ := typecheckGroup_some htc
       obtain ⟨r0, hq, he⟩ := groupCore_sound aggs src g t grouped hs.1 (fun r0 hr0 => hs.2.1 aggs r0 htc hr0) hg
       exact ⟨cols, aggs, r0, grouped, hcols, haggs, hq, he,
-        sink_sound mode g.post grouped c out (Res.ofOption_ok hc) (hs.2.2 grouped c (Res.ofOption_ok hc)) h⟩
+        sink_sound mode g.post grouped c out (Res.ofOption_ok hc) (hs.2.2 aggs grouped c htc hg (Res.ofOption_ok hc)) h⟩
   | sel src b =>
     simp only [GQuery.hasLimit0, Bool.or_eq_false_iff] at hl
     have hskip : skipsSource mode b = false := by simp [skipsSource, hl.1]
@@ -146,7 +148,7 @@ theorem C03_denote_sound (mode : Mode) (tys : List Ty) (q : GQuery) (t out : Lis
     obtain ⟨mid, hm, h⟩ := Res.bind_ok h
     obtain ⟨c, hc, h⟩ := Res.bind_ok h
     exact ⟨mid, denoteGNested_sound tys src t mid hs.1 hl.2 hm,
-      sink_sound mode b mid c out (Res.ofOption_ok hc) (hs.2 mid c (Res.ofOption_ok hc)) h⟩
+      sink_sound mode b mid c out (Res.ofOption_ok hc) (hs.2 mid c hm (Res.ofOption_ok hc)) h⟩
 
 /-- `LIMIT 0` at the top: the engine returns no rows without running anything (which is what LIMIT 0 asks for) -/
 theorem limit0_returns_nothing (mode : Mode) (tys : List Ty) (src : Query) (g : GroupBlock) (t out : List Row)
@@ -328,6 +330,25 @@ example : ∃ aggs, typecheckGroup tys2 .table (match q1 with | .group _ g => g 
   refine ⟨_, rfl, ?_⟩
   decide
 
+/-- `SELECT * FROM (q1) WHERE count(c1) > 1 ORDER BY c0` — the HAVING-like outer block -/
+def q2 : GQuery := .sel q1
+  { whr := some (.bin .gt (.col 1) (.lit (.int 1))), proj := none, distinct := false, order := [(.col 0, false)], limit := none }
+
+example : isRows [[.null, .int 2, .int 7, .int 3, .list [.int 3, .int 4], .int 2],
+                  [.int 1, .int 2, .int (-3), .int (-1), .list [.int (-4), .int 1], .int 3]]
+    (denoteG .eager tys2 q2 tbl) = true := by decide
+
+/-- `q1` with `TRIGGER COUNTING 1` (every record fires its key: five retractions on this table), through the
+    changelog pipeline and the table printer -/
+def q3 : GQuery := match q1 with
+  | .group src g => .group src { g with trig := .counting 1 }
+  | q => q
+
+example : isRows [[.null, .int 2, .int 7, .int 3, .list [.int 3, .int 4], .int 2],
+                  [.int 1, .int 2, .int (-3), .int (-1), .list [.int (-4), .int 1], .int 3],
+                  [.int 2, .null, .null, .null, .null, .int 1]]
+    (denoteGT .table tys2 q3 tbl) = true := by decide
+
 /-- the side conditions of `C03_full` hold for it: no float sums, no ORDER BY keys -/
 example : GSide tys2 q1 tbl := by
   refine ⟨trivial, ?_, ?_⟩
@@ -339,7 +360,7 @@ example : GSide tys2 q1 tbl := by
     cases h1'
     simp only [List.mem_cons, List.not_mem_nil, or_false] at hp
     rcases hp with rfl | rfl | rfl | rfl | rfl <;> trivial
-  · intro grouped c _ r _
+  · intro aggs grouped c _ _ _ r _
     rfl
 
 end Octo.C03
